@@ -45,6 +45,7 @@ def main(tier, replay=None):
     # thousands of objects, a fraction kept through a rooted Array of Ref: the registry passes through many of its sizes
     camp.run([], [["reset", "bulk %d %d" % (m, k)] for (m, k) in (((700, 3), (3000, 7), (12000, 2)) if quick else ((300, 1), (700, 3), (3000, 7), (12000, 2), (40000, 5), (60000, 11)))],
              "bulk", sample=False)
+    camp.run([], [["reset", "copyplain"]], "copies-of-plain-objects", sample=False)
     # explicit deletes whose finalisers allocate: the registry changes under the removal that is in progress
     camp.run([], [["reset", "delalloc %d %d" % nk] for nk in ((6, 64), (40, 3), (300, 8), (5, 2))], "deleting-spawners", sample=False)
     # many root objects at once; the thorough tier passes the last entry of the collector's table of sizes (8 800 019 slots)
